@@ -1,6 +1,9 @@
 //@ unit cosets
 //@ props C11
 //@@ depends free_words partitions
+//@@ fnprops C13 lemma_pairs_bound lemma_pigeon_int lemma_ix_join lemma_ix_final lemma_ix_pairing lemma_compacted_row lemma_pairing_trace lemma_intersection_fixes witness_intersection_contract canary_intersection_contract
+#![feature(panic_internals)]
+#![feature(sized_hierarchy)]
 use vstd::prelude::*;
 use vstd::std_specs::core::IndexSpecImpl;
 use vstd::std_specs::ops::*;
@@ -13,6 +16,13 @@ verus! {
 // =====================================================================================================
 pub assume_specification<T, const N: usize>[<VecDeque<T> as From<[T; N]>>::from](a: [T; N]) -> (r: VecDeque<T>)
     ensures r@ == a@;
+#[verifier::external_type_specification]
+pub struct ExAssertKind(core::panicking::AssertKind);
+pub assume_specification<T, U> [core::panicking::assert_failed] (_0: core::panicking::AssertKind, _1: &T, _2: &U, _3: std::option::Option<std::fmt::Arguments<'_>>) -> !
+    where
+    T: std::marker::MetaSized + std::fmt::Debug + ?Sized,
+    U: std::marker::MetaSized + std::fmt::Debug + ?Sized,
+    requires false;
 pub assume_specification<K: Ord, V, const N: usize>[<BTreeMap<K, V> as From<[(K, V); N]>>::from](a: [(K, V); N]) -> (r: BTreeMap<K, V>)
     ensures N == 1 ==> r@ == Map::<K, V>::empty().insert(a@[0].0, a@[0].1);
 
@@ -124,7 +134,7 @@ pub open spec fn united(r0: spec_fn(int) -> int, r1: spec_fn(int) -> int, a: int
 // =====================================================================================================
 // CosetTable
 // =====================================================================================================
-//@ begin src/fpgroups/cosets.rs :: - :: struct CosetTable
+//@ begin src/fpgroups/cosets.rs :: - :: struct CosetTable | props=C11,C13
 //@ rw R0 /^([ \t]+)(\w+): /\1pub \2: /
 pub struct CosetTable {
     pub nr_gens: usize,
@@ -148,7 +158,7 @@ impl CosetTable {
         if 0 <= c < self.table@.len() && self.raw(c, g) >= 0 { Some(self.part.rep(self.raw(c, g)) as usize) } else { None }
     }
 
-    //@ begin src/fpgroups/cosets.rs :: impl CosetTable :: fn new
+    //@ begin src/fpgroups/cosets.rs :: impl CosetTable :: fn new | props=C11,C13
     //@ rw R16 /-> Self/-> (r: Self)/
     pub fn new(nr_gens: usize) -> (r: Self)
         requires nr_gens < isize::MAX / 2
@@ -165,7 +175,7 @@ impl CosetTable {
     }
     //@ end
 
-    //@ begin src/fpgroups/cosets.rs :: impl CosetTable :: fn nr_gens
+    //@ begin src/fpgroups/cosets.rs :: impl CosetTable :: fn nr_gens | props=C11,C13
     //@ rw R16 /-> usize/-> (r: usize)/
     pub fn nr_gens(&self) -> (r: usize)
         ensures r == self.nr_gens
@@ -175,7 +185,7 @@ impl CosetTable {
     //@ end
 
     // R5: the body is two std iterator expressions (RangeInclusive map/collect, cloned/chain/map/collect) vstd does not model
-    //@ begin src/fpgroups/cosets.rs :: impl CosetTable :: fn all_gens
+    //@ begin src/fpgroups/cosets.rs :: impl CosetTable :: fn all_gens | props=C11,C13
     //@ rw R16 /-> Vec<isize>/-> (r: Vec<isize>)/
     #[verifier::external_body]
     pub fn all_gens(&self) -> (r: Vec<isize>)
@@ -188,7 +198,7 @@ impl CosetTable {
     }
     //@ end
 
-    //@ begin src/fpgroups/cosets.rs :: impl CosetTable :: fn len
+    //@ begin src/fpgroups/cosets.rs :: impl CosetTable :: fn len | props=C11,C13
     //@ rw R16 /-> usize/-> (r: usize)/
     pub fn len(&self) -> (r: usize)
         ensures r == self.table@.len()
@@ -197,7 +207,7 @@ impl CosetTable {
     }
     //@ end
 
-    //@ begin src/fpgroups/cosets.rs :: impl CosetTable :: fn canon
+    //@ begin src/fpgroups/cosets.rs :: impl CosetTable :: fn canon | props=C11,C13
     //@ rw R16 /-> usize/-> (r: usize)/
     fn canon(&self, c: usize) -> (r: usize)
         requires c < usize::MAX
@@ -207,7 +217,7 @@ impl CosetTable {
     }
     //@ end
 
-    //@ begin src/fpgroups/cosets.rs :: impl CosetTable :: fn get
+    //@ begin src/fpgroups/cosets.rs :: impl CosetTable :: fn get | props=C11,C13
     //@ rw R16 /-> Option<usize>/-> (r: Option<usize>)/
     pub fn get(&self, c: usize, g: isize) -> (r: Option<usize>)
         requires self.wf(), self.col_ok(g as int)
@@ -226,7 +236,7 @@ impl CosetTable {
     }
     //@ end
 
-    //@ begin src/fpgroups/cosets.rs :: impl CosetTable :: fn set
+    //@ begin src/fpgroups/cosets.rs :: impl CosetTable :: fn set | props=C11,C13
     pub fn set(&mut self, c: usize, g: isize, d: usize)
         requires old(self).wf(), old(self).col_ok(g as int), d <= isize::MAX, c < usize::MAX
         ensures final(self).wf(), final(self).nr_gens == old(self).nr_gens, final(self).part == old(self).part,
@@ -252,7 +262,7 @@ impl CosetTable {
     }
     //@ end
 
-    //@ begin src/fpgroups/cosets.rs :: impl CosetTable :: fn join
+    //@ begin src/fpgroups/cosets.rs :: impl CosetTable :: fn join | props=C11,C13
     fn join(&mut self, c: usize, d: usize, g: isize)
         requires old(self).wf(), old(self).col_ok(g as int), c <= isize::MAX, d <= isize::MAX, c < usize::MAX, d < usize::MAX, g > isize::MIN
         // after join, row c maps to d under g and d maps back to c under the inverse generator
@@ -556,7 +566,7 @@ pub fn coset_representative(table: &CosetTable) -> (result: BTreeMap<usize, Free
 // the bookkeeping invariant of the enumeration: entries and representatives stay inside the table, which stays below the row limit
 pub open spec fn rows_ok(t: &CosetTable) -> bool {
     &&& t.wf()
-    &&& 1 <= t.table@.len() <= 100_000
+    &&& 1 <= t.table@.len() <= isize::MAX / 2
     &&& forall|c: int, g: int| 0 <= c < t.table@.len() && t.col_ok(g) ==> -1 <= #[trigger] t.raw(c, g) < t.table@.len()
     &&& forall|x: int| 0 <= x < t.table@.len() ==> 0 <= #[trigger] t.part.rep(x) < t.table@.len()
     &&& forall|x: int| #[trigger] t.part.rep(t.part.rep(x)) == t.part.rep(x)
@@ -1768,7 +1778,7 @@ pub open spec fn numbering_ok(t: &CosetTable, o2n: Seq<usize>, n2o: Seq<int>, n:
 }
 
 impl CosetTable {
-    //@ begin src/fpgroups/cosets.rs :: impl CosetTable :: fn compact
+    //@ begin src/fpgroups/cosets.rs :: impl CosetTable :: fn compact | props=C11,C13
     //@ rw R16 /-> CosetTable$/-> (result: CosetTable)/
     //@ rw R12 /let mut n = 0;/let mut n: usize = 0;/
     //@ rw R17 /for g in self\.all_gens\(\)$/for g in it: self.all_gens()/
@@ -2604,6 +2614,393 @@ pub fn coset_table(
     __r
 }
 //@ end
+
+
+// =====================================================================================================
+// C13 (third sentence): "The intersection table is the orbit of the pair of base rows in the product action, so a word fixes its
+// row 0 exactly when it fixes row 0 of both inputs."
+// =====================================================================================================
+// pa pairs every row of t with a row of ta and a row of tb: row 0 with (0, 0), injectively, and compatibly with every generator
+pub open spec fn pairing(ta: &CosetTable, tb: &CosetTable, t: &CosetTable, pa: Seq<(int, int)>) -> bool {
+    &&& pa.len() == t.table@.len() && pa[0] == (0int, 0int)
+    &&& forall|r: int| 0 <= r < pa.len() ==> 0 <= (#[trigger] pa[r]).0 < ta.table@.len() && 0 <= pa[r].1 < tb.table@.len()
+    &&& forall|r1: int, r2: int| 0 <= r1 < pa.len() && 0 <= r2 < pa.len() && #[trigger] pa[r1] == #[trigger] pa[r2] ==> r1 == r2
+    &&& forall|r: int, g: int| 0 <= r < pa.len() && t.gen_ok(g) ==>
+            (#[trigger] t.act(r, g)).is_some() && t.act(r, g).unwrap() < pa.len()
+            && pa[t.act(r, g).unwrap() as int] == (ta.act(pa[r].0, g).unwrap() as int, tb.act(pa[r].1, g).unwrap() as int)
+}
+
+// the loop state of intersection_table
+pub open spec fn ix_state(ta: &CosetTable, tb: &CosetTable, t: &CosetTable, o2n: Seq<Vec<isize>>, n2o: Seq<(usize, usize)>) -> bool {
+    &&& rows_ok(t) && t.nr_gens == ta.nr_gens && n2o.len() == t.table@.len() && n2o[0] == (0usize, 0usize)
+    &&& forall|x: int| #[trigger] t.part.rep(x) == x
+    &&& o2n.len() == ta.table@.len() && forall|a: int| 0 <= a < o2n.len() ==> (#[trigger] o2n[a])@.len() == tb.table@.len()
+    &&& forall|k: int| 0 <= k < n2o.len() ==> (#[trigger] n2o[k]).0 < ta.table@.len() && n2o[k].1 < tb.table@.len() && o2n[n2o[k].0 as int]@[n2o[k].1 as int] == k
+    &&& forall|a: int, b: int| 0 <= a < ta.table@.len() && 0 <= b < tb.table@.len() ==>
+            -1 <= (#[trigger] o2n[a]@[b]) < n2o.len() && (o2n[a]@[b] >= 0 ==> n2o[o2n[a]@[b] as int] == (a as usize, b as usize))
+    // every defined entry is the right one
+    &&& forall|k: int, g: int| 0 <= k < n2o.len() && t.gen_ok(g) && #[trigger] t.raw(k, g) >= 0 ==>
+            n2o[t.raw(k, g)] == (ta.act(n2o[k].0 as int, g).unwrap(), tb.act(n2o[k].1 as int, g).unwrap())
+}
+
+// the rows are pairwise different pairs, so there are at most |ta| * |tb| of them
+proof fn lemma_pairs_bound(na: int, nb: int, o2n: Seq<Vec<isize>>, n2o: Seq<(usize, usize)>)
+    requires na >= 1, nb >= 1, o2n.len() == na, forall|a: int| 0 <= a < na ==> (#[trigger] o2n[a])@.len() == nb,
+        forall|k: int| 0 <= k < n2o.len() ==> (#[trigger] n2o[k]).0 < na && n2o[k].1 < nb && o2n[n2o[k].0 as int]@[n2o[k].1 as int] == k,
+    ensures n2o.len() <= na * nb
+{
+    // the injection k |-> a * nb + b into 1..=na*nb
+    let s = Seq::new(n2o.len(), |k: int| n2o[k].0 as int * nb + n2o[k].1 as int + 1);
+    assert forall|k: int| 0 <= k < s.len() implies 1 <= #[trigger] s[k] <= na * nb by {
+        let a = n2o[k].0 as int; let b = n2o[k].1 as int;
+        assert(a * nb + b + 1 <= na * nb) by(nonlinear_arith) requires 0 <= a < na, 0 <= b < nb;
+        assert(a * nb >= 0) by(nonlinear_arith) requires a >= 0, nb >= 1;
+    }
+    assert forall|x: int, y: int| 0 <= x < y < s.len() implies s[x] != s[y] by {
+        let a1 = n2o[x].0 as int; let b1 = n2o[x].1 as int; let a2 = n2o[y].0 as int; let b2 = n2o[y].1 as int;
+        if s[x] == s[y] {
+            assert(a1 == a2 && b1 == b2) by(nonlinear_arith) requires a1 * nb + b1 == a2 * nb + b2, 0 <= b1 < nb, 0 <= b2 < nb, a1 >= 0, a2 >= 0;
+            assert(o2n[a1]@[b1] == x && o2n[a2]@[b2] == y);
+        }
+    }
+    lemma_pigeon_int(s, na * nb);
+}
+// pigeonhole: a duplicate-free sequence of values in 1..=n has length <= n
+proof fn lemma_pigeon_int(s: Seq<int>, n: int)
+    requires n >= 0, forall|k: int| 0 <= k < s.len() ==> 1 <= #[trigger] s[k] <= n,
+        forall|a: int, b: int| 0 <= a < b < s.len() ==> s[a] != s[b],
+    ensures s.len() <= n
+    decreases n
+{
+    if s.len() == 0 {
+    } else if n == 0 {
+        assert(1 <= s[0] <= 0);
+    } else {
+        if exists|p: int| 0 <= p < s.len() && s[p] == n {
+            let p = choose|p: int| 0 <= p < s.len() && s[p] == n;
+            let t = s.remove(p);
+            assert forall|k: int| 0 <= k < t.len() implies 1 <= #[trigger] t[k] <= n - 1 by {
+                if k < p { assert(t[k] == s[k]); assert(s[k] != s[p]); } else { assert(t[k] == s[k + 1]); assert(s[p] != s[k + 1]); }
+            }
+            assert forall|a: int, b: int| 0 <= a < b < t.len() implies t[a] != t[b] by {
+                let a2 = if a < p { a } else { a + 1 };
+                let b2 = if b < p { b } else { b + 1 };
+                assert(t[a] == s[a2] && t[b] == s[b2]);
+            }
+            lemma_pigeon_int(t, n - 1);
+        } else {
+            assert forall|k: int| 0 <= k < s.len() implies 1 <= #[trigger] s[k] <= n - 1 by { }
+            lemma_pigeon_int(s, n - 1);
+        }
+    }
+}
+
+// one step of intersection_table: the pair (ag, bg) = (a.g, b.g) of row i is numbered (if it was not) and row i is joined to it
+proof fn lemma_ix_join(ta: &CosetTable, tb: &CosetTable, t0: &CosetTable, t1: &CosetTable, o0: Seq<Vec<isize>>, m0: Seq<(usize, usize)>,
+                       o1: Seq<Vec<isize>>, m1s: Seq<(usize, usize)>, i: int, ag: usize, bg: usize, g: int)
+    requires valid(ta), valid(tb), ta.nr_gens == tb.nr_gens, ix_state(ta, tb, t0, o0, m0), 0 <= i < t0.table@.len(), t0.gen_ok(g),
+        ag == ta.act(m0[i].0 as int, g).unwrap(), bg == tb.act(m0[i].1 as int, g).unwrap(),
+        o0[ag as int]@[bg as int] >= 0 ==> o1 == o0 && m1s == m0,
+        o0[ag as int]@[bg as int] < 0 ==> m1s == m0.push((ag, bg)) && o1.len() == o0.len() && o1[ag as int]@ == o0[ag as int]@.update(bg as int, t0.table@.len() as isize)
+            && forall|a: int| 0 <= a < o0.len() && a != ag ==> #[trigger] o1[a] == o0[a],
+        ta.table@.len() * tb.table@.len() <= isize::MAX / 2,
+        // the join
+        t1.nr_gens == t0.nr_gens, t1.part == t0.part, t1.wf(),
+        ({ let n = o1[ag as int]@[bg as int] as int;
+           &&& t1.raw(i, g) == n && t1.raw(n, -g) == i
+           &&& t1.table@.len() == (if n < t0.table@.len() { t0.table@.len() as int } else { n + 1 })
+           &&& forall|c2: int, g2: int| 0 <= c2 < t1.table@.len() && t0.col_ok(g2) && !(c2 == i && g2 == g) && !(c2 == n && g2 == -g)
+                ==> #[trigger] t1.raw(c2, g2) == (if c2 < t0.table@.len() { t0.raw(c2, g2) } else { -1 }) }),
+    ensures ix_state(ta, tb, t1, o1, m1s)
+{
+    let len0 = t0.table@.len() as int;
+    let n = o1[ag as int]@[bg as int] as int;
+    let a = m0[i].0 as int; let b = m0[i].1 as int;
+    assert(a < ta.table@.len() && b < tb.table@.len());
+    assert(ta.act(a, g).is_some() && ta.act(a, g).unwrap() < ta.table@.len() && ta.act(ta.act(a, g).unwrap() as int, -g) == Some(a as usize));
+    assert(tb.act(b, g).is_some() && tb.act(b, g).unwrap() < tb.table@.len() && tb.act(tb.act(b, g).unwrap() as int, -g) == Some(b as usize));
+    assert(-1 <= o0[ag as int]@[bg as int] < m0.len());
+    if o0[ag as int]@[bg as int] >= 0 { assert(n == o0[ag as int]@[bg as int] && m0[n] == (ag, bg)); } else { assert(n == len0 && m1s[n] == (ag, bg)); }
+    assert(m1s[n] == (ag, bg));
+    // numbering facts
+    assert forall|k: int| 0 <= k < m1s.len() implies (#[trigger] m1s[k]).0 < ta.table@.len() && m1s[k].1 < tb.table@.len() && o1[m1s[k].0 as int]@[m1s[k].1 as int] == k by {
+        if k < m0.len() {
+            assert(m1s[k] == m0[k]);
+            assert(o0[m0[k].0 as int]@[m0[k].1 as int] == k);
+            if o0[ag as int]@[bg as int] < 0 && m0[k].0 == ag { assert(!(m0[k].1 == bg)); }
+        }
+    }
+    assert forall|x: int, y: int| 0 <= x < ta.table@.len() && 0 <= y < tb.table@.len() implies
+        -1 <= (#[trigger] o1[x]@[y]) < m1s.len() && (o1[x]@[y] >= 0 ==> m1s[o1[x]@[y] as int] == (x as usize, y as usize)) by {
+        assert(-1 <= o0[x]@[y] < m0.len() && (o0[x]@[y] >= 0 ==> m0[o0[x]@[y] as int] == (x as usize, y as usize)));
+        if o0[ag as int]@[bg as int] < 0 { if x == ag && y == bg { } else if x == ag { assert(o1[x]@[y] == o0[x]@[y]); } else { assert(o1[x] == o0[x]); } }
+    }
+    assert forall|x: int| 0 <= x < o1.len() implies (#[trigger] o1[x])@.len() == tb.table@.len() by { assert(o0[x]@.len() == tb.table@.len()); if o0[ag as int]@[bg as int] < 0 && x != ag { assert(o1[x] == o0[x]); } }
+    lemma_pairs_bound(ta.table@.len() as int, tb.table@.len() as int, o1, m1s);
+    // the table
+    assert(rows_ok(t1)) by {
+        assert forall|c2: int, g2: int| 0 <= c2 < t1.table@.len() && t1.col_ok(g2) implies -1 <= #[trigger] t1.raw(c2, g2) < t1.table@.len() by {
+            if !(c2 == i && g2 == g) && !(c2 == n && g2 == -g) { assert(t1.raw(c2, g2) == (if c2 < len0 { t0.raw(c2, g2) } else { -1 })); if c2 < len0 { assert(-1 <= t0.raw(c2, g2) < len0); } }
+        }
+        assert forall|x: int| 0 <= x < t1.table@.len() implies 0 <= #[trigger] t1.part.rep(x) < t1.table@.len() by { assert(t0.part.rep(x) == x); }
+        assert forall|x: int| #[trigger] t1.part.rep(t1.part.rep(x)) == t1.part.rep(x) by { assert(t0.part.rep(x) == x); assert(t0.part.rep(t0.part.rep(x)) == t0.part.rep(x)); }
+        assert forall|x: int| !(0 <= x < t1.table@.len()) implies #[trigger] t1.part.rep(x) == x by { assert(t0.part.rep(x) == x); }
+    }
+    assert forall|x: int| #[trigger] t1.part.rep(x) == x by { assert(t0.part.rep(x) == x); }
+    // every defined entry is the right one
+    assert forall|k: int, h: int| 0 <= k < m1s.len() && t1.gen_ok(h) && #[trigger] t1.raw(k, h) >= 0 implies
+        m1s[t1.raw(k, h)] == (ta.act(m1s[k].0 as int, h).unwrap(), tb.act(m1s[k].1 as int, h).unwrap()) by {
+        if k == i && h == g {
+            assert(m1s[i] == m0[i]);
+        } else if k == n && h == -g {
+            assert(m1s[i] == m0[i]);
+            assert(ta.gen_ok(g) && tb.gen_ok(g));
+        } else {
+            assert(t1.raw(k, h) == (if k < len0 { t0.raw(k, h) } else { -1 }));
+            assert(k < len0);
+            assert(m0[t0.raw(k, h)] == (ta.act(m0[k].0 as int, h).unwrap(), tb.act(m0[k].1 as int, h).unwrap()));
+            assert(-1 <= t0.raw(k, h) < len0);
+            assert(m1s[k] == m0[k] && m1s[t0.raw(k, h)] == m0[t0.raw(k, h)]);
+        }
+    }
+}
+
+proof fn lemma_ix_final(ta: &CosetTable, tb: &CosetTable, t: &CosetTable, o2n: Seq<Vec<isize>>, n2o: Seq<(usize, usize)>)
+    requires valid(ta), valid(tb), ta.nr_gens == tb.nr_gens, ix_state(ta, tb, t, o2n, n2o), forall|k: int| 0 <= k < t.table@.len() ==> #[trigger] row_complete(t, k)
+    ensures all_complete(t), inv_consistent(t)
+{
+    assert forall|k: int| #[trigger] canonical(t, k) implies row_complete(t, k) by { }
+    assert forall|k: int, g: int| canonical(t, k) && t.gen_ok(g) && (#[trigger] t.act(k, g)).is_some() implies t.act(t.act(k, g).unwrap() as int, -g) == Some(k as usize) by {
+        let c = t.raw(k, g);
+        assert(-1 <= c < t.table@.len());
+        assert(t.part.rep(c) == c);
+        assert(row_complete(t, c));
+        assert(t.gen_ok(-g));
+        let m = t.raw(c, -g);
+        assert(m >= 0 && -1 <= m < t.table@.len());
+        assert(t.part.rep(m) == m);
+        let a = n2o[k].0 as int; let b = n2o[k].1 as int;
+        assert(n2o[c] == (ta.act(a, g).unwrap(), tb.act(b, g).unwrap()));
+        assert(n2o[m] == (ta.act(n2o[c].0 as int, -g).unwrap(), tb.act(n2o[c].1 as int, -g).unwrap()));
+        assert(ta.gen_ok(g) && tb.gen_ok(g));
+        assert(ta.act(ta.act(a, g).unwrap() as int, -g) == Some(a as usize));
+        assert(tb.act(tb.act(b, g).unwrap() as int, -g) == Some(b as usize));
+        assert(n2o[m] == n2o[k]);
+        assert(o2n[n2o[m].0 as int]@[n2o[m].1 as int] == m && o2n[n2o[k].0 as int]@[n2o[k].1 as int] == k);
+    }
+}
+
+proof fn lemma_ix_pairing(ta: &CosetTable, tb: &CosetTable, t: &CosetTable, r: &CosetTable, nw: Seq<int>, o2n: Seq<Vec<isize>>, n2o: Seq<(usize, usize)>)
+    requires valid(ta), valid(tb), ta.nr_gens == tb.nr_gens, ix_state(ta, tb, t, o2n, n2o), forall|k: int| 0 <= k < t.table@.len() ==> #[trigger] row_complete(t, k),
+        compacted(t, r, nw), n2o[0] == (0usize, 0usize),
+    ensures exists|pa: Seq<(int, int)>| pairing(ta, tb, r, pa)
+{
+    let back = |x: int| choose|k: int| canonical(t, k) && #[trigger] nw[k] == x;
+    let pa = Seq::new(r.table@.len(), |x: int| (n2o[back(x)].0 as int, n2o[back(x)].1 as int));
+    assert forall|x: int| 0 <= x < r.table@.len() implies canonical(t, #[trigger] back(x)) && nw[back(x)] == x by { assert(is_row(r, x)); }
+    assert(canonical(t, 0)) by { assert(t.part.rep(0) == 0); }
+    assert(back(0) == 0) by { assert(nw[t.part.rep(0)] == 0); }
+    assert forall|x: int| 0 <= x < pa.len() implies 0 <= (#[trigger] pa[x]).0 < ta.table@.len() && 0 <= pa[x].1 < tb.table@.len() by { assert(canonical(t, back(x))); }
+    assert forall|r1: int, r2: int| 0 <= r1 < pa.len() && 0 <= r2 < pa.len() && #[trigger] pa[r1] == #[trigger] pa[r2] implies r1 == r2 by {
+        let k1 = back(r1); let k2 = back(r2);
+        assert(canonical(t, k1) && canonical(t, k2));
+        assert(n2o[k1] == n2o[k2]);
+        assert(o2n[n2o[k1].0 as int]@[n2o[k1].1 as int] == k1 && o2n[n2o[k2].0 as int]@[n2o[k2].1 as int] == k2);
+    }
+    assert forall|x: int, g: int| 0 <= x < pa.len() && r.gen_ok(g) implies
+        (#[trigger] r.act(x, g)).is_some() && r.act(x, g).unwrap() < pa.len()
+        && pa[r.act(x, g).unwrap() as int] == (ta.act(pa[x].0, g).unwrap() as int, tb.act(pa[x].1, g).unwrap() as int) by {
+        let k = back(x);
+        assert(canonical(t, k));
+        assert(t.gen_ok(g));
+        assert(r.act(nw[k], g) == (match t.act(k, g) { Some(c) => Some(nw[c as int] as usize), None => None }));
+        assert(row_complete(t, k));
+        assert(t.raw(k, g) >= 0);
+        lemma_act_in_range(t, k, g);
+        let c = t.act(k, g).unwrap() as int;
+        assert(c == t.raw(k, g)) by { assert(t.part.rep(t.raw(k, g)) == t.raw(k, g)); }
+        assert(canonical(t, c));
+        // the row nw[c] of r exists: its g^-1 entry is set
+        assert(row_complete(t, c));
+        assert(t.gen_ok(-g));
+        assert(t.raw(c, -g) >= 0);
+        lemma_compacted_row(t, r, nw, c, -g);
+        let y = nw[c];
+        assert(0 <= y < r.table@.len());
+        assert(is_row(r, y));
+        let k2 = back(y);
+        assert(canonical(t, k2) && nw[k2] == nw[c]);
+        assert(k2 == c);
+    }
+    assert(pa[0] == (0int, 0int));
+    assert(pairing(ta, tb, r, pa));
+}
+
+// a live complete row has a row in the compacted table
+proof fn lemma_compacted_row(t: &CosetTable, r: &CosetTable, nw: Seq<int>, c: int, g: int)
+    requires rows_ok(t), compacted(t, r, nw), canonical(t, c), t.gen_ok(g), t.raw(c, g) >= 0
+    ensures 0 <= nw[c] < r.table@.len()
+{
+    lemma_act_in_range(t, c, g);
+    assert(r.act(nw[c], g) == (match t.act(c, g) { Some(c2) => Some(nw[c2 as int] as usize), None => None }));
+    assert(r.act(nw[c], g).is_some());
+}
+
+//@ begin src/fpgroups/cosets.rs :: - :: fn intersection_table | props=C13
+//@ rw R16 /-> CosetTable$/-> (result: CosetTable)/
+//@ rw R12 /let mut n2o = vec!\[\];/let mut n2o: Vec<(usize, usize)> = vec![];/
+//@ rw R19 /for i in 0\.\.\n([ \t]*)\{/let mut __i: usize = 0;\n\1loop\n\1{\n\1    let i = __i; __i += 1;/
+//@ rw R17 /for g in table\.all_gens\(\)$/for g in it: table.all_gens()/
+//@ rw R14 /^([ \t]*)table\.compact\(\)$/\1let __r = table.compact();\n\1__r/
+#[verifier::spinoff_prover]
+#[verifier::exec_allows_no_decreases_clause]
+pub fn intersection_table(ta: &CosetTable, tb: &CosetTable) -> (result: CosetTable)
+    requires valid(ta), valid(tb), ta.nr_gens == tb.nr_gens, ta.table@.len() * tb.table@.len() <= isize::MAX / 2,
+    ensures valid(&result), result.nr_gens == ta.nr_gens, exists|pa: Seq<(int, int)>| pairing(ta, tb, &result, pa),
+{
+    assert_eq!(ta.nr_gens, tb.nr_gens);
+
+    let mut table = CosetTable::new(ta.nr_gens);
+    let mut o2n = vec![vec![-1; tb.len()]; ta.len()];
+    let mut n2o: Vec<(usize, usize)> = vec![];
+
+    o2n[0][0] = 0;
+    n2o.push((0, 0));
+    proof {
+        assert(ix_state(ta, tb, &table, o2n@, n2o@)) by {
+            assert forall|k: int, g: int| 0 <= k < n2o@.len() && table.gen_ok(g) && #[trigger] table.raw(k, g) >= 0 implies
+                n2o@[table.raw(k, g)] == (ta.act(n2o@[k].0 as int, g).unwrap(), tb.act(n2o@[k].1 as int, g).unwrap()) by { assert(table.raw(0, g) == -1); }
+        }
+    }
+
+    let mut __i: usize = 0;
+    loop
+        invariant_except_break __i <= table.table@.len(),
+        invariant valid(ta), valid(tb), ta.nr_gens == tb.nr_gens, ta.table@.len() * tb.table@.len() <= isize::MAX / 2,
+            ix_state(ta, tb, &table, o2n@, n2o@),
+            forall|k: int| 0 <= k < __i && k < table.table@.len() ==> #[trigger] row_complete(&table, k),
+        ensures ix_state(ta, tb, &table, o2n@, n2o@), forall|k: int| 0 <= k < table.table@.len() ==> #[trigger] row_complete(&table, k),
+    {
+        let i = __i; __i += 1;
+        if i >= table.len() {
+            break;
+        }
+        let (a, b) = n2o[i];
+        for g in it: table.all_gens()
+            invariant valid(ta), valid(tb), ta.nr_gens == tb.nr_gens, ta.table@.len() * tb.table@.len() <= isize::MAX / 2,
+                ix_state(ta, tb, &table, o2n@, n2o@), i < table.table@.len(), (a, b) == n2o@[i as int],
+                forall|k: int| 0 <= k < i ==> #[trigger] row_complete(&table, k),
+                it.seq().len() == 2 * table.nr_gens,
+                forall|k: int| 0 <= k < it.seq().len() ==> table.gen_ok(#[trigger] it.seq()[k] as int) && gen_index(&table, it.seq()[k] as int) == k,
+                forall|h: int| table.gen_ok(h) && gen_index(&table, h) < it.index() ==> #[trigger] table.raw(i as int, h) >= 0,
+        {
+            let ghost idx = it.index() as int;
+            proof { assert(table.gen_ok(it.seq()[idx] as int) && gen_index(&table, it.seq()[idx] as int) == idx); }
+            let ag = ta.get(a, g).unwrap();
+            let bg = tb.get(b, g).unwrap();
+            proof {
+                assert(ta.act(a as int, g as int).unwrap() < ta.table@.len() && tb.act(b as int, g as int).unwrap() < tb.table@.len());
+                lemma_pairs_bound(ta.table@.len() as int, tb.table@.len() as int, o2n@, n2o@);
+            }
+            let ghost o0 = o2n@;
+            let ghost m0 = n2o@;
+            if o2n[ag][bg] < 0 {
+                o2n[ag][bg] = table.len() as isize;
+                n2o.push((ag, bg));
+            }
+            let ghost t0 = table;
+            let ghost n = o2n@[ag as int]@[bg as int] as int;
+            proof {
+                assert(-1 <= o0[ag as int]@[bg as int] < m0.len());
+                assert(0 <= n <= t0.table@.len());
+            }
+            table.join(i, o2n[ag][bg] as usize, g);
+            proof { lemma_ix_join(ta, tb, &t0, &table, o0, m0, o2n@, n2o@, i as int, ag, bg, g as int); }
+            proof {
+                assert forall|k: int| 0 <= k < i implies #[trigger] row_complete(&table, k) by {
+                    assert(row_complete(&t0, k));
+                    assert forall|h: int| table.gen_ok(h) implies #[trigger] table.raw(k, h) >= 0 by { assert(t0.raw(k, h) >= 0); if !(k == n && h == -(g as int)) { assert(table.raw(k, h) == t0.raw(k, h)); } }
+                }
+                assert forall|h: int| table.gen_ok(h) && gen_index(&table, h) < idx + 1 implies #[trigger] table.raw(i as int, h) >= 0 by {
+                    if gen_index(&table, h) < idx { assert(t0.raw(i as int, h) >= 0); if !(i == n && h == -(g as int)) { assert(table.raw(i as int, h) == t0.raw(i as int, h)); } }
+                    else { assert(h == g); }
+                }
+            }
+        }
+        proof {
+            assert(row_complete(&table, i as int)) by { assert forall|h: int| table.gen_ok(h) implies #[trigger] table.raw(i as int, h) >= 0 by { assert(0 <= gen_index(&table, h) < 2 * table.nr_gens); } }
+        }
+    }
+
+    proof { lemma_ix_final(ta, tb, &table, o2n@, n2o@); }
+    let __r = table.compact();
+    proof {
+        let nw = choose|nw: Seq<int>| compacted(&table, &__r, nw);
+        lemma_ix_pairing(ta, tb, &table, &__r, nw, o2n@, n2o@);
+    }
+    __r
+}
+//@ end
+
+// along every word the pairing follows the two inputs ...
+proof fn lemma_pairing_trace(ta: &CosetTable, tb: &CosetTable, t: &CosetTable, pa: Seq<(int, int)>, x: int, w: Seq<isize>)
+    requires valid(ta), valid(tb), t.nr_gens == ta.nr_gens, ta.nr_gens == tb.nr_gens, pairing(ta, tb, t, pa), 0 <= x < pa.len(), gens_ok(t, w),
+        t.table@.len() <= usize::MAX, ta.table@.len() <= usize::MAX, tb.table@.len() <= usize::MAX,     // true of every Vec; known in exec code from .len()
+    ensures trace(t, x, w).is_some(), trace(t, x, w).unwrap() < pa.len(),
+        trace(ta, pa[x].0, w).is_some(), trace(tb, pa[x].1, w).is_some(),
+        pa[trace(t, x, w).unwrap() as int] == (trace(ta, pa[x].0, w).unwrap() as int, trace(tb, pa[x].1, w).unwrap() as int)
+    decreases w.len()
+{
+    if w.len() > 0 {
+        let w0 = w.drop_last();
+        assert(gens_ok(t, w0)) by { assert forall|j: int| 0 <= j < w0.len() implies t.gen_ok(#[trigger] w0[j] as int) by { assert(w0[j] == w[j]); } }
+        lemma_pairing_trace(ta, tb, t, pa, x, w0);
+        assert(t.gen_ok(w[w.len() - 1] as int));
+        let y = trace(t, x, w0).unwrap() as int;
+        let g = w.last() as int;
+        assert(t.act(y, g).is_some());
+        assert(ta.gen_ok(g) && tb.gen_ok(g));
+        assert(0 <= pa[y].0 < ta.table@.len() && 0 <= pa[y].1 < tb.table@.len());
+        assert(ta.act(pa[y].0, g).is_some() && tb.act(pa[y].1, g).is_some());
+        assert(trace(ta, pa[x].0, w0).unwrap() as int == pa[y].0);
+        assert(trace(tb, pa[x].1, w0).unwrap() as int == pa[y].1);
+        assert(trace(ta, pa[x].0, w) == ta.act(pa[y].0, g));
+        assert(trace(tb, pa[x].1, w) == tb.act(pa[y].1, g));
+        assert(pa[t.act(y, g).unwrap() as int] == (ta.act(pa[y].0, g).unwrap() as int, tb.act(pa[y].1, g).unwrap() as int));
+    } else {
+        assert(trace(t, x, w) == Some(x as usize));
+        assert((x as usize) as int == x);
+        assert(0 <= pa[x].0 < ta.table@.len() && 0 <= pa[x].1 < tb.table@.len());
+        assert(trace(ta, pa[x].0, w) == Some(pa[x].0 as usize));
+        assert(trace(tb, pa[x].1, w) == Some(pa[x].1 as usize));
+        assert(pa[x] == (pa[x].0, pa[x].1));
+    }
+}
+
+// ... so (C13) "a word fixes its row 0 exactly when it fixes row 0 of both inputs"
+pub proof fn lemma_intersection_fixes(ta: &CosetTable, tb: &CosetTable, t: &CosetTable, pa: Seq<(int, int)>, w: Seq<isize>)
+    requires valid(ta), valid(tb), t.nr_gens == ta.nr_gens, ta.nr_gens == tb.nr_gens, pairing(ta, tb, t, pa), t.table@.len() >= 1, gens_ok(t, w),
+        t.table@.len() <= usize::MAX, ta.table@.len() <= usize::MAX, tb.table@.len() <= usize::MAX,
+    ensures (trace(t, 0, w) == Some(0usize)) <==> (trace(ta, 0, w) == Some(0usize) && trace(tb, 0, w) == Some(0usize))
+{
+    lemma_pairing_trace(ta, tb, t, pa, 0, w);
+    let r = trace(t, 0, w).unwrap() as int;
+    if trace(ta, 0, w) == Some(0usize) && trace(tb, 0, w) == Some(0usize) { assert(pa[r] == pa[0]); }
+}
+
+fn witness_intersection_contract(ta: &CosetTable, tb: &CosetTable)
+    requires valid(ta), valid(tb), ta.nr_gens == tb.nr_gens, ta.table@.len() == 2, tb.table@.len() == 3
+{
+    let t = intersection_table(ta, tb);
+    assert(t.table@.len() >= 1);
+}
+
+fn canary_intersection_contract(ta: &CosetTable, tb: &CosetTable)
+    requires valid(ta), valid(tb), ta.nr_gens == tb.nr_gens, ta.table@.len() == 2, tb.table@.len() == 3
+    ensures false
+{
+    let t = intersection_table(ta, tb);
+}
 
 // vacuity guards
 proof fn canary_rows_ok_is_satisfiable(t: &CosetTable)
